@@ -179,10 +179,10 @@ theorem XL.edit {t u : Str} (h : XL t u) : ∀ {V : Str}, Ed t V → XL V u := b
     | keep _ _ v1 _ h' =>
       obtain ⟨v, rfl, h''⟩ := Ed.chunk [63, 58] (by decide) h'
       exact XL.lpn v u (ih h'')
-  | lpc t u ht h1 h2 ih =>
+  | lpc t u ht h1 ih =>
     intro V he
     cases he with
     | keep _ _ v _ h' =>
-      exact XL.lpc v u (ih h') ((ih h').head_ne 63 (by decide) h2) h2
+      exact XL.lpc v u (ih h') h1
 
 end Grexv
